@@ -486,6 +486,8 @@ def store_item(I, obj, idx, v):
             # allow index into leading fixed part
             if isinstance(idx, int) and idx >= 0 and all(isinstance(s, BSeg) for s in obj.segs[: idx + 1]) and len(obj.segs) > idx:
                 pass
+            elif isinstance(idx, int) and idx >= 0 and _split_for_store(I, obj, idx):
+                pass
             else:
                 raise Unsupported("item assignment on symbolic-length bytearray")
         else:
@@ -531,6 +533,38 @@ def store_item(I, obj, idx, v):
     if isinstance(obj, bytearray):
         raise Unsupported("store into concrete bytearray (should be SBytes)")
     raise Unsupported(f"item assignment on {type(obj).__name__}")
+
+
+def _split_for_store(I, obj, idx):
+    """Make position idx of a bytearray an own BSeg (splitting a symbolic-length segment), raising
+    IndexError on the paths where idx is out of range. True on success."""
+    pos = 0
+    for si, s in enumerate(obj.segs):
+        if isinstance(s, BSeg):
+            if pos == idx:
+                return True
+            pos += 1
+            continue
+        if isinstance(s.n, int):
+            if idx < pos + s.n:
+                obj.expand()
+                return _split_for_store(I, obj, idx)
+            pos += s.n
+            continue
+        # symbolic-length segment starting at concrete pos
+        k = idx - pos
+        if not I.path.decide(iexpr(s.n) > k):
+            # idx beyond this segment: only supported when it is the last one (then IndexError)
+            if si == len(obj.segs) - 1:
+                I.raise_py(IndexError, "bytearray index out of range")
+            return False
+        from .core import _clip
+
+        head = [BSeg(_clip(s.f(iexpr(s.off) + j))) for j in range(k + 1)]
+        tail = CSeg(s.f, B._add(s.off, k + 1), B._simp(iexpr(s.n) - (k + 1)))
+        obj.segs[si : si + 1] = head + [tail]
+        return True
+    I.raise_py(IndexError, "bytearray index out of range")
 
 
 class _KeyWrap:
